@@ -1,0 +1,291 @@
+//go:build verif
+
+package storagesc
+
+// Thin exported wrappers for the /verif storage engine (state enumeration of unexported
+// types, config node access). No logic: every function only reads a node with the package's
+// own getter and copies fields into an exported projection struct.
+
+import (
+	cstate "0chain.net/chaincore/chain/state"
+	"0chain.net/smartcontract/stakepool/spenum"
+	"github.com/0chain/common/core/util"
+)
+
+func VerifNewConfig() *Config { return newConfig() }
+
+func VerifSaveConfig(conf *Config, balances cstate.StateContextI) error {
+	_, err := balances.InsertTrieNode(scConfigKey(ADDRESS), conf)
+	return err
+}
+
+func VerifGetConfig(balances cstate.StateContextI) (*Config, error) {
+	return getConfig(balances)
+}
+
+type VerifBlobberAlloc struct {
+	BlobberID        string
+	Size             int64
+	WritePrice       uint64
+	ReadPrice        uint64
+	CPIV             uint64
+	ChallengeReward  uint64
+	Penalty          uint64
+	Returned         uint64
+	ReadReward       uint64
+	Offer            uint64
+	UsedSize         int64
+	LatestFinalized  int64
+	LatestSuccessful int64
+	TotalCh          int64
+	OpenCh           int64
+	SuccessCh        int64
+	FailedCh         int64
+	HasLWM           bool
+	LWMSize          int64
+	LWMTimestamp     int64
+	NumReads         int64
+}
+
+type VerifAlloc struct {
+	ID                string
+	Owner             string
+	Start             int64
+	Expiration        int64
+	Size              int64
+	DataShards        int
+	ParityShards      int
+	WritePool         uint64
+	MovedToChallenge  uint64
+	MovedBack         uint64
+	MovedToValidators uint64
+	Finalized         bool
+	Canceled          bool
+	ThirdParty        bool
+	UsedSize          int64
+	TimeUnit          int64
+	Version           string
+	Enterprise        bool
+	TotalCh           int64
+	OpenCh            int64
+	SuccessCh         int64
+	FailedCh          int64
+	BAs               []VerifBlobberAlloc
+}
+
+// VerifAllocation returns (nil, nil) when the allocation node is absent.
+func VerifAllocation(id string, balances cstate.StateContextI) (*VerifAlloc, error) {
+	sa := new(StorageAllocation)
+	err := balances.GetTrieNode(GetAllocKey(ADDRESS, id), sa)
+	if err == util.ErrValueNotPresent {
+		return nil, nil
+	}
+	if err != nil {
+		return nil, err
+	}
+	a := sa.mustBase()
+	out := &VerifAlloc{ID: a.ID, Owner: a.Owner, Start: int64(a.StartTime), Expiration: int64(a.Expiration),
+		Size: a.Size, DataShards: a.DataShards, ParityShards: a.ParityShards, WritePool: uint64(a.WritePool),
+		MovedToChallenge: uint64(a.MovedToChallenge), MovedBack: uint64(a.MovedBack),
+		MovedToValidators: uint64(a.MovedToValidators), Finalized: a.Finalized, Canceled: a.Canceled,
+		ThirdParty: a.ThirdPartyExtendable, TimeUnit: int64(a.TimeUnit), Version: sa.Entity().GetVersion()}
+	if v2, ok := sa.Entity().(*storageAllocationV2); ok && v2.IsEnterprise != nil {
+		out.Enterprise = *v2.IsEnterprise
+	}
+	if a.Stats != nil {
+		out.UsedSize = a.Stats.UsedSize
+		out.TotalCh, out.OpenCh, out.SuccessCh, out.FailedCh = a.Stats.TotalChallenges, a.Stats.OpenChallenges, a.Stats.SuccessChallenges, a.Stats.FailedChallenges
+	}
+	for _, d := range a.BlobberAllocs {
+		b := VerifBlobberAlloc{BlobberID: d.BlobberID, Size: d.Size, WritePrice: uint64(d.Terms.WritePrice),
+			ReadPrice: uint64(d.Terms.ReadPrice), CPIV: uint64(d.ChallengePoolIntegralValue),
+			ChallengeReward: uint64(d.ChallengeReward), Penalty: uint64(d.Penalty), Returned: uint64(d.Returned),
+			ReadReward: uint64(d.ReadReward), Offer: uint64(d.Offer()),
+			LatestFinalized: int64(d.LatestFinalizedChallCreatedAt), LatestSuccessful: int64(d.LatestSuccessfulChallCreatedAt)}
+		if d.Stats != nil {
+			b.UsedSize = d.Stats.UsedSize
+			b.TotalCh, b.OpenCh, b.SuccessCh, b.FailedCh = d.Stats.TotalChallenges, d.Stats.OpenChallenges, d.Stats.SuccessChallenges, d.Stats.FailedChallenges
+			b.NumReads = d.Stats.NumReads
+		}
+		if d.LastWriteMarker != nil {
+			w := d.LastWriteMarker.mustBase()
+			b.HasLWM, b.LWMSize, b.LWMTimestamp = true, w.Size, int64(w.Timestamp)
+		}
+		out.BAs = append(out.BAs, b)
+	}
+	return out, nil
+}
+
+// VerifChallengePool returns the pool balance and whether the node exists.
+func VerifChallengePool(allocID string, balances cstate.StateContextI) (uint64, bool, error) {
+	cp := newChallengePool()
+	err := balances.GetTrieNode(challengePoolKey(ADDRESS, allocID), cp)
+	if err == util.ErrValueNotPresent {
+		return 0, false, nil
+	}
+	if err != nil {
+		return 0, false, err
+	}
+	return uint64(cp.Balance), true, nil
+}
+
+type VerifBlobber struct {
+	ID           string
+	Capacity     int64
+	Allocated    int64
+	SavedData    int64
+	Killed       bool
+	ShutDown     bool
+	NotAvailable bool
+	WritePrice   uint64
+	ReadPrice    uint64
+	LastHealth   int64
+	Version      string
+}
+
+func VerifBlobberNode(id string, balances cstate.StateContextI) (*VerifBlobber, error) {
+	sn, err := getBlobber(id, balances)
+	if err == util.ErrValueNotPresent {
+		return nil, nil
+	}
+	if err != nil {
+		return nil, err
+	}
+	b := sn.mustBase()
+	return &VerifBlobber{ID: b.ID, Capacity: b.Capacity, Allocated: b.Allocated, SavedData: b.SavedData,
+		Killed: b.IsKilled(), ShutDown: b.IsShutDown(), NotAvailable: b.NotAvailable,
+		WritePrice: uint64(b.Terms.WritePrice), ReadPrice: uint64(b.Terms.ReadPrice),
+		LastHealth: int64(b.LastHealthCheck), Version: sn.Entity().GetVersion()}, nil
+}
+
+type VerifDelegate struct {
+	PoolID   string
+	Delegate string
+	Balance  uint64
+	Reward   uint64
+	Status   int
+}
+
+type VerifStakePool struct {
+	TotalOffers uint64
+	Reward      uint64
+	Killed      bool
+	MinStake    uint64
+	Charge      float64
+	Wallet      string
+	Pools       []VerifDelegate // ordered by pool id
+}
+
+// VerifStakePoolOf: kind 0 = blobber, 1 = validator. (nil, nil) when absent.
+func VerifStakePoolOf(kind int, id string, balances cstate.StateContextI) (*VerifStakePool, error) {
+	pt := spenum.Blobber
+	if kind == 1 {
+		pt = spenum.Validator
+	}
+	sp, err := getStakePool(pt, id, balances)
+	if err == util.ErrValueNotPresent {
+		return nil, nil
+	}
+	if err != nil {
+		return nil, err
+	}
+	out := &VerifStakePool{TotalOffers: uint64(sp.TotalOffers), Reward: uint64(sp.Reward), Killed: sp.HasBeenKilled,
+		MinStake: uint64(sp.Settings.MinStake), Charge: sp.Settings.ServiceChargeRatio, Wallet: sp.Settings.DelegateWallet}
+	for _, pid := range sp.OrderedPoolIds() {
+		dp := sp.Pools[pid]
+		out.Pools = append(out.Pools, VerifDelegate{PoolID: pid, Delegate: dp.DelegateID, Balance: uint64(dp.Balance),
+			Reward: uint64(dp.Reward), Status: int(dp.Status)})
+	}
+	return out, nil
+}
+
+func VerifReadPool(client string, balances cstate.StateContextI) (uint64, bool, error) {
+	rp := new(readPool)
+	err := balances.GetTrieNode(readPoolKey(ADDRESS, client), rp)
+	if err == util.ErrValueNotPresent {
+		return 0, false, nil
+	}
+	if err != nil {
+		return 0, false, err
+	}
+	return uint64(rp.Balance), true, nil
+}
+
+// VerifReadCounter: counter of the last redeemed read marker for (blobber, client, allocation).
+func VerifReadCounter(blobber, client, alloc string, balances cstate.StateContextI) (int64, bool, error) {
+	rc := &ReadConnection{ReadMarker: &ReadMarker{BlobberID: blobber, ClientID: client, AllocationID: alloc}}
+	last := &ReadConnection{}
+	err := balances.GetTrieNode(rc.GetKey(ADDRESS), last)
+	if err == util.ErrValueNotPresent {
+		return 0, false, nil
+	}
+	if err != nil {
+		return 0, false, err
+	}
+	return last.ReadMarker.ReadCounter, true, nil
+}
+
+type VerifAssigner struct {
+	IndividualLimit uint64
+	TotalLimit      uint64
+	CurrentRedeemed uint64
+	RedeemedNonces  []int64
+	PublicKey       string
+}
+
+func VerifAssignerNode(name string, balances cstate.StateContextI) (*VerifAssigner, error) {
+	fsa := new(freeStorageAssigner)
+	err := balances.GetTrieNode(freeStorageAssignerKey(ADDRESS, name), fsa)
+	if err == util.ErrValueNotPresent {
+		return nil, nil
+	}
+	if err != nil {
+		return nil, err
+	}
+	return &VerifAssigner{IndividualLimit: uint64(fsa.IndividualLimit), TotalLimit: uint64(fsa.TotalLimit),
+		CurrentRedeemed: uint64(fsa.CurrentRedeemed), RedeemedNonces: append([]int64{}, fsa.RedeemedNonces...),
+		PublicKey: fsa.PublicKey}, nil
+}
+
+type VerifOpenChallenge struct {
+	ID           string
+	BlobberID    string
+	Created      int64
+	RoundCreated int64
+}
+
+func VerifOpenChallenges(allocID string, balances cstate.StateContextI) ([]VerifOpenChallenge, bool, error) {
+	ac := new(AllocationChallenges)
+	ac.AllocationID = allocID
+	err := balances.GetTrieNode(ac.GetKey(ADDRESS), ac)
+	if err == util.ErrValueNotPresent {
+		return nil, false, nil
+	}
+	if err != nil {
+		return nil, false, err
+	}
+	var out []VerifOpenChallenge
+	for _, oc := range ac.OpenChallenges {
+		out = append(out, VerifOpenChallenge{ID: oc.ID, BlobberID: oc.BlobberID, Created: int64(oc.CreatedAt), RoundCreated: oc.RoundCreatedAt})
+	}
+	return out, true, nil
+}
+
+// VerifChallengeNode: validators chosen for a challenge; present=false when the node is gone.
+func VerifChallengeNode(id string, balances cstate.StateContextI) (validators []string, alloc, blobber string, present bool, err error) {
+	ch := new(StorageChallenge)
+	ch.ID = id
+	err = balances.GetTrieNode(ch.GetKey(ADDRESS), ch)
+	if err == util.ErrValueNotPresent {
+		return nil, "", "", false, nil
+	}
+	if err != nil {
+		return nil, "", "", false, err
+	}
+	return append([]string{}, ch.ValidatorIDs...), ch.AllocationID, ch.BlobberID, true, nil
+}
+
+// VerifRandomSubSlice: the validators rewarded for a challenge (order matters for the remainder).
+func VerifRandomSubSlice(slice []string, size int, seed int64) []string {
+	return getRandomSubSlice(append([]string{}, slice...), size, seed)
+}
